@@ -46,6 +46,11 @@ typedef struct Avtp_Rvf {
     uint8_t payload[0];
 } Avtp_Rvf_t;
 
+#ifdef COVESA_OPEN1722_VERIF
+/* verification hook: the verifier's C front end compares enum operands as signed int, GCC (no negative
+ * enumerator) as unsigned int; under the guard the identifier type is the unsigned int GCC uses */
+#define Avtp_RvfField_t Avtp_RvfField_t_verif_enum
+#endif
 typedef enum Avtp_RvfField {
     /* RVF header fields */
     AVTP_RVF_FIELD_SUBTYPE,
@@ -82,6 +87,10 @@ typedef enum Avtp_RvfField {
     /* Count number of fields for bound checks */
     AVTP_RVF_FIELD_MAX
 } Avtp_RvfField_t;
+#ifdef COVESA_OPEN1722_VERIF
+#undef Avtp_RvfField_t
+typedef unsigned int Avtp_RvfField_t;
+#endif
 
 typedef enum Avtp_RvfPixelDepth {
     AVTP_RVF_PIXEL_DEPTH_8              = 0x01,
